@@ -269,7 +269,94 @@ fn one(rep: &Report, data: Vec<DataItem>, rng: &Rng, core: bool, idx: usize, cli
     }
 }
 
+/// One context / output used for several data texts in a row (no clear in between, the way the library's own tests do
+/// it): a definition that is refused because the segment would exceed 64 KiB must leave nothing behind -- the loader
+/// input, the counter and the labels of the definitions accepted afterwards agree with the image of the accepted ones.
+fn continued_after_refusal(rep: &Report, n: usize, seed: u64) {
+    par_for(n, 4, |i| {
+        let core = i < 40;
+        let mut rng = if core { Rng::new(0xC12E).fork(i as u64) } else { Rng::new(seed).fork(0xC12E_0000 + i as u64) };
+        let mut sess = Session::new();
+        let mut accepted: Vec<DataItem> = Vec::new();
+        let mut used: u32 = 0;
+        let mut hist: Vec<String> = Vec::new();
+        let steps = 3 + rng.below(5);
+        let mut lab = 0;
+        let mut mismatch = false;
+        for st in 0..steps {
+            lab += 1;
+            let big = st > 0 && rng.chance(1, 2);
+            let word = rng.chance(1, 2);
+            let kind = if big {
+                // all four ways of writing a large definition
+                match rng.below(3) {
+                    0 => DK::Zeros(30_000 + rng.below(10_000) as u16),
+                    1 => DK::Fill(7, 30_000 + rng.below(10_000) as u16),
+                    _ => DK::Fill(if word { 0x1234 } else { 0x12 }, 40_000),
+                }
+            } else {
+                match rng.below(3) {
+                    0 => DK::Num(if word { 0x1100 + st as u16 } else { 0x10 + st as u16 }),
+                    1 => DK::Str(format!("s{}", st)),
+                    _ => DK::Fill(3, 1 + rng.below(4) as u16),
+                }
+            };
+            let def = DataDef { label: Some(format!("k{}", lab)), word, kind };
+            let size = def.size();
+            let text = Program { data: vec![DataItem::Def(def.clone())], items: vec![] }.render_plain().text;
+            let fits = used + size <= 65536;
+            let r = sess.parse(&text);
+            hist.push(format!("{} ({} bytes) -> {}", text.trim(), size, if r.is_ok() { "accepted" } else { "refused" }));
+            if r.is_ok() != fits {
+                mismatch = true;
+                break;
+            }
+            if fits {
+                used += size;
+                accepted.push(DataItem::Def(def));
+            }
+        }
+        rep.eval(1);
+        if mismatch {
+            rep.count("continued layouts where acceptance differs from the size rule (judged by the single-program planes)", 1);
+            return;
+        }
+        rep.count("data texts parsed one after another on the same context, some refused for size", 1);
+        rep.distinct_str(&format!("continued|{}|{}", accepted.len(), hist.len() - accepted.len()));
+        let lines: Vec<String> = sess.data().clone();
+        let fin = sess.finish();
+        let img = data_image(&accepted);
+        let fail = |sig: &str, what: &str, detail: String| {
+            rep.fail(Failure {
+                sig: format!("data:continued:{}", sig),
+                what: format!("C12: {}", what),
+                witness: format!("{{\"kind\": \"src-sequence\", \"texts\": {:?}, \"loader_input\": {:?}, \"detail\": {}}}", hist, &lines[..lines.len().min(12)], json_str(&detail)),
+                core_item: if core { Some(format!("{}|{}", i, sig)) } else { None },
+            });
+        };
+        let dl = fin.data_labels();
+        for (l, off) in &img.labels {
+            if dl.get(l) != Some(off) {
+                fail("label-offset", "after a definition refused for size, a later label does not denote the offset of its definition", format!("label {} expected {} observed {:?}", l, off, dl.get(l)));
+                return;
+            }
+        }
+        with_fresh_vm(|vm| {
+            if load_data(vm, &lines).is_err() {
+                rep.count("data lines refused by the loader (filed under C10)", 1);
+                return;
+            }
+            let want = image_mem(&img);
+            if vm.mem[..] != want[..] {
+                let first = (0..MB as usize).find(|&x| vm.mem[x] != want[x]).unwrap();
+                fail("memory-image", "after a definition refused for size, the loader's input no longer produces the image of the accepted definitions", format!("first difference at {:05x}: expected {:02x} observed {:02x}", first, want[first], vm.mem[first]));
+            }
+        });
+    });
+}
+
 pub fn run(rep: &Report) {
+    continued_after_refusal(rep, if rep.thorough() { 20_000 } else { 300 }, rep.seed);
     // deterministic core: small layouts + the 64 KiB boundary
     par_for(300, 4, |i| {
         let mut rng = Rng::new(0xC12).fork(i as u64);
